@@ -42,7 +42,7 @@ Qed.
 (*  Side conditions on the generated tables                                *)
 (* ---------------------------------------------------------------------- *)
 
-(* the decoder's dimension table inverts the encoder's on D1, D2, D3, and every number the
+(* the decoder's dimension table inverts the encoder's on Dim1, Dim2, Dim3, and every number the
    encoder writes fits the u8 field *)
 Lemma dim_tables_inverse : forall d, num_to_dim (dim_to_num d) = d /\ dim_to_num d < 256.
 Proof. destruct d; vm_compute; split; reflexivity. Qed.
@@ -197,7 +197,7 @@ Lemma source_dimension_tables_inverse :
   forallb (fun p => dimension_eqb (num_to_dim (snd p)) (fst p)) dim_enc_table = true
   /\ forallb (fun p => dim_to_num (snd p) =? fst p) dim_dec_table = true
   /\ forallb (fun d => existsb (fun p => dimension_eqb (fst p) d) dim_enc_table) all_dimensions = true
-  /\ map fst dim_dec_table = [1; 2; 3] /\ dim_dec_default = D2.
+  /\ map fst dim_dec_table = [1; 2; 3] /\ dim_dec_default = Dim2.
 Proof. repeat split; reflexivity. Qed.
 
 (* the wire layout of ImageData *)
@@ -220,7 +220,7 @@ Proof. split; [repeat constructor|reflexivity]. Qed.
 
 (* a 2x1x3 3-D image in the 23rd format of the table *)
 Definition ex_image : image :=
-  mkImage 2 1 3 D3 (wire_name (nth 22 format_table ([], [], false, 0)))
+  mkImage 2 1 3 Dim3 (wire_name (nth 22 format_table ([], [], false, 0)))
           [0; 255; 1; 254; 7; 7; 7; 7; 7; 7; 7; 7; 7; 7; 7; 7; 7; 7; 7; 7; 7; 7; 7; 9].
 
 Example ex_image_wf : wf_image ex_image.
@@ -232,8 +232,8 @@ Example ex_image_roundtrip :
 Proof. vm_compute. reflexivity. Qed.
 
 Example ex_image_empty :
-  match image_to_bin (mkImage 0 0 0 D1 [] []) with Some bs => bin_to_image bs | None => Stuck end
-  = Ok (Some (mkImage 0 0 0 D1 [] [])).
+  match image_to_bin (mkImage 0 0 0 Dim1 [] []) with Some bs => bin_to_image bs | None => Stuck end
+  = Ok (Some (mkImage 0 0 0 Dim1 [] [])).
 Proof. vm_compute. reflexivity. Qed.
 
 Example ex_image_bincode_failure : bin_to_image (compress [1; 2; 3]) = Ok None.
